@@ -12,6 +12,7 @@ import os
 
 import lexrun
 import lextable
+import stmttie
 import vcheck
 
 HEADER = ("From Coq Require Import List Arith NArith Bool String.\nImport ListNotations.\n"
@@ -146,7 +147,11 @@ def main(ck):
         ck.broken.append("harness-build")
         ck.finish(evaluations=0, distinct_nontrivial=0, rule="harness did not build")
     tbl, changed = lextable.regenerate(ck, binary)
-    ck.prove(deps=["Lexer", "gen", "C18", "C04"])
+    stmt_bin, out2 = ck.go_build("stmt")
+    if stmt_bin is None:
+        ck.broken.append("harness-build")
+        ck.finish(evaluations=0, distinct_nontrivial=0, rule="harness did not build")
+    ck.prove(deps=["Lexer", "gen", "C18", "C04", "Stmt"])
     ck.log("proofs checked")
     quick = ck.tier == "quick"
 
@@ -285,6 +290,57 @@ def main(ck):
             ck.broken.append("correspondence:C01.tokens")
             ck.violation("tie:%s:%s" % (c["mode"], c["mut"].split(":")[0]), rep)
 
+    # ---- statement-level tie: the Coq statement model (coq/Stmt) vs the real parser, tree against tree, on the
+    #      generated core programs and token-level mutants of them (deletion, duplication, truncation, insertion)
+    stie = {"cases": 0, "unrepresentable": 0, "unsup": 0}
+    if not ck.replay:
+        progs = [bytes.fromhex(c["hex"]).decode("latin-1") for c in cases if c["origin"] == "generated" and c["mut"] == "none"]
+        if quick:
+            progs = progs[:90]
+        first = stmttie.run_engine(stmt_bin, progs)
+        ssrcs = []
+        INS = ["(", ")", "{", "}", "[", "]", ",", ";", "=>", ":", "?", "+", "-", "++", "=", "if", "else", "case", "echo", "new",
+               "f", "foo", "$v0", "1", '"s"', "catch", "while", "return", "!", "*", ".", "switch", "default", "for", "throw"]
+        for pr, o in zip(progs, first):
+            ssrcs.append(pr)
+            toks = [t[1] if t[0] not in ("true", "false", "null") else t[0] for t in (o.get("toks") or [])]
+            for _ in range(7 if quick else 25):
+                if not toks:
+                    break
+                k = rng.randrange(4)
+                i = rng.randrange(len(toks))
+                t2 = list(toks)
+                if k == 0:
+                    t2 = t2[:i]
+                elif k == 1:
+                    del t2[i]
+                elif k == 2:
+                    t2.insert(i, t2[i])
+                else:
+                    t2.insert(i, rng.choice(INS))
+                ssrcs.append(" ".join(t2))
+        souts = stmttie.run_engine(stmt_bin, ssrcs)
+        sterms, sidx = [], []
+        for i, o in enumerate(souts):
+            t = stmttie.coq_case(o)
+            if t is None:
+                stie["unrepresentable"] += 1
+                continue
+            sterms.append(t)
+            sidx.append(i)
+        sbad = ck.eval_cases("stmt", stmttie.HEADER, sterms, "check_case", shard=max(1, len(sterms) // 16 + 1))
+        stie["cases"] = len(sterms)
+        for j, cls in sorted(sbad.items(), key=lambda kv: len(ssrcs[sidx[kv[0]]])):
+            if 9 in cls:
+                stie["unsup"] += 1
+                continue
+            src, o = ssrcs[sidx[j]], souts[sidx[j]]
+            ck.broken.append("correspondence:C01.statements")
+            ck.violation("stmt-tie", {"case": {"text": src}, "impl_out": {k: o.get(k) for k in ("tree", "perr", "panic")},
+                                      "clause": "statement model != real parser (program tree / error)"})
+        ck.log("statement model evaluated on %d programs and mutants" % len(sterms))
+    ck.cov["statement_tie"] = stie
+
     origins = {}
     muts = {}
     for c in cases:
@@ -304,4 +360,4 @@ def main(ck):
                    "programs, each with token-boundary prefixes, single-token deletions and duplications (spans from the real lexer) "
                    "and byte mutations; all through the full real parser under a watchdog, generated programs and their mutants "
                    "also executed; non-trivial = distinct input with at least three tokens",
-              traces=len(perm) - unsup)
+              traces=len(perm) - unsup + stie["cases"] - stie["unsup"])
